@@ -157,3 +157,83 @@ func c07Fallback(n int) {
 
 func VerifHarness_C07_Fallback3() { c07Fallback(3) }
 func VerifHarness_C07_Fallback5() { c07Fallback(5) }
+
+// lexical answers that exist only through NLP expansion (the query's own words miss the
+// index, an expanded term hits): typo tolerance must not change them either
+func VerifHarness_C07_OnlyFallbackExpansion() {
+	mk := func(cmd, desc string) Command {
+		c := Command{Command: cmd, Description: desc}
+		vFill(&c)
+		return c
+	}
+	db := &Database{Commands: []Command{
+		mk("cp", "duplicate things"), mk("mv", "relocate things"), mk("rm", "erase things"), mk("ls", "enumerate things"),
+		mk("mkdir", "new folder"), mk("grep", "pattern lines"), mk("tar", "bundle things"), mk("cat", "print things"),
+	}}
+	db.BuildUniversalIndex()
+	db.buildTFIDFSearcher()
+	// a symbolic 4-letter word: the solver tries every table word of that length (copy, move, list, find, show, make, ...)
+	q := c06Word("w", 4, 4)
+	if verifBool("two") {
+		q = q + " " + []string{"files", "directory"}[verifIntRange("second", 0, 1)]
+	}
+	base := SearchOptions{Limit: 3, UseNLP: true, AllPlatforms: true}
+	off := db.SearchUniversal(q, base)
+	if len(off) == 0 {
+		verifReach("no-lexical-answer") // the fallback's own behaviour is the other harnesses' subject
+		return
+	}
+	with := base
+	with.UseFuzzy = true
+	on := db.SearchUniversal(q, with)
+	if len(off) > 0 {
+		verifAssert(len(on) == len(off), "C07: typo tolerance never changes an answer that exists (length)")
+		if len(on) == len(off) {
+			for k := range off {
+				verifAssert(on[k].Command == off[k].Command, "C07: typo tolerance never changes an answer that exists (entries)")
+				verifAssert(c03SameFloat(on[k].Score, off[k].Score), "C07: typo tolerance never changes an answer that exists (scores)")
+			}
+		}
+		verifReach("lexical-answer")
+	} else {
+		verifReach("no-lexical-answer")
+	}
+}
+
+// a genuine match buried in a very long text (raw fuzzy score far below -100) is still
+// returned when no threshold is set
+func VerifHarness_C07_FallbackLongText() {
+	long := ""
+	for i := 0; i < 13; i++ {
+		long += "mmmmmmmmmm"
+	}
+	mk := func(cmd, desc string) Command {
+		c := Command{Command: cmd, Description: desc}
+		vFill(&c)
+		return c
+	}
+	db := &Database{Commands: []Command{mk(long+"qx", "mmmm"), mk("nn", "oo")}}
+	db.BuildUniversalIndex()
+	thr := []int{0, -1000}[verifIntRange("threshold", 0, 1)]
+	q := string([]byte{verifByte("c1"), verifByte("c2")})
+	verifAssume(q[0] >= 'p')
+	verifAssume(q[0] <= 'r')
+	verifAssume(q[1] >= 'w')
+	verifAssume(q[1] <= 'y')
+	res := db.SearchUniversal(q, SearchOptions{Limit: 3, UseFuzzy: true, FuzzyThreshold: thr, AllPlatforms: true})
+	some := false
+	for i := range db.Commands {
+		if c07Subseq(q, db.Commands[i].Command+" "+db.Commands[i].Description) {
+			some = true
+		}
+	}
+	if some {
+		verifAssert(len(res) > 0, "C07: a query occurring in order in some command is never left without a result when no threshold excludes it")
+		verifReach("fallback-nonempty")
+	}
+	for _, r := range res {
+		verifAssert(c07Subseq(q, r.Command.Command+" "+r.Command.Description), "C07: every fallback result contains the query's characters in order")
+		verifAssert(r.Score >= 0 && r.Score <= 1, "C07: fallback scores are normalised into [0,1]")
+	}
+	verifReach("fallback")
+}
